@@ -30,3 +30,6 @@ func VerifParseTilePath(path string) (bool, string, uint8, uint32, uint32, strin
 func VerifParseTilejsonPath(path string) (bool, string) { return parseTilejsonPath(path) }
 
 func VerifParseMetadataPath(path string) (bool, string) { return parseMetadataPath(path) }
+
+// VerifNewMockBucket exposes the in-memory bucket used by the package's own tests.
+func VerifNewMockBucket(items map[string][]byte) Bucket { return mockBucket{items} }
